@@ -1333,3 +1333,220 @@ pub mod c141516 {
     }
 }
 
+// ======================================================================================
+// merged block from the c111213 work
+// ======================================================================================
+// Helpers of the large-scale (`CNN/large-*`) sub-checks.
+//
+// Every group of properties keeps its helpers in its own sub-module so that blocks written
+// independently can be merged by concatenation.
+
+// ===========================================================================
+// ---- block of C11 / C12 / C13 (FASTA/FASTQ, indexed FASTA, BED/GFF) -------
+// ===========================================================================
+pub mod c111213 {
+    use crate::engine::{known, WATCH};
+    use std::collections::HashMap;
+    use std::io::{self, Read, Seek, SeekFrom};
+    use std::sync::{Mutex, OnceLock};
+    use std::time::Instant;
+
+    /// centres of the threshold ladder; every centre c stands for the three values c-1, c, c+1
+    pub const CENTRES: &[u64] = &[256, 512, 1024, 4096, 8192, 16384, 32768, 65536, 70_000, 131_072, 1 << 19, 1 << 20];
+    /// centres reached by the quick tier for parameters whose single case stays cheap at 2^20
+    pub const QUICK_TOP: u64 = 1 << 20;
+
+    /// the ladder values (c-1, c, c+1 for every centre) up to and including `max_centre`
+    pub fn ladder(max_centre: u64) -> Vec<u64> {
+        let mut v = Vec::new();
+        for &c in CENTRES {
+            if c <= max_centre {
+                v.extend([c - 1, c, c + 1]);
+            }
+        }
+        v
+    }
+
+    /// name of the band a value lies in: "255..257" for the three values around a centre, otherwise the gap
+    pub fn band(n: u64) -> String {
+        let mut below = 0u64;
+        for &c in CENTRES {
+            if n + 1 >= c && n <= c + 1 {
+                return format!("{}..{}", c - 1, c + 1);
+            }
+            if n < c - 1 {
+                return format!("between {} and {}", below, c - 1);
+            }
+            below = c + 1;
+        }
+        format!("above {}", below)
+    }
+
+    /// class labels must be `&'static str`; the set of labels is small and fixed, each distinct label is leaked once
+    pub fn intern(s: String) -> &'static str {
+        static M: OnceLock<Mutex<HashMap<String, &'static str>>> = OnceLock::new();
+        let mut m = M.get_or_init(|| Mutex::new(HashMap::new())).lock().unwrap();
+        if let Some(l) = m.get(&s) {
+            return l;
+        }
+        let l: &'static str = Box::leak(s.clone().into_boxed_str());
+        m.insert(s, l);
+        l
+    }
+
+    /// "<param> in 65535..65537"
+    pub fn band_label(param: &str, n: u64) -> &'static str {
+        intern(format!("{} in {}", param, band(n)))
+    }
+
+    pub fn mix(mut z: u64) -> u64 {
+        z = z.wrapping_add(0x9e3779b97f4a7c15);
+        z = (z ^ (z >> 30)).wrapping_mul(0xbf58476d1ce4e5b9);
+        z = (z ^ (z >> 27)).wrapping_mul(0x94d049bb133111eb);
+        z ^ (z >> 31)
+    }
+
+    /// splitmix64 stream; the only source of pseudo-randomness inside the large checks
+    #[derive(Clone, Debug)]
+    pub struct Sm(pub u64);
+
+    impl Sm {
+        pub fn new(seed: u64, salt: u64) -> Sm {
+            Sm(mix(seed ^ mix(salt)))
+        }
+        pub fn next(&mut self) -> u64 {
+            self.0 = self.0.wrapping_add(0x9e3779b97f4a7c15);
+            let mut z = self.0;
+            z = (z ^ (z >> 30)).wrapping_mul(0xbf58476d1ce4e5b9);
+            z = (z ^ (z >> 27)).wrapping_mul(0x94d049bb133111eb);
+            z ^ (z >> 31)
+        }
+        /// uniform in 0..n (n >= 1)
+        pub fn below(&mut self, n: u64) -> u64 {
+            ((self.next() as u128 * n.max(1) as u128) >> 64) as u64
+        }
+        /// uniform in lo..=hi
+        pub fn range(&mut self, lo: u64, hi: u64) -> u64 {
+            lo + self.below(hi - lo + 1)
+        }
+        pub fn coin(&mut self) -> bool {
+            self.next() & 1 == 1
+        }
+    }
+
+    /// Publishes the case to the in-process watchdog for the duration of a check that is driven by
+    /// an enumerating sub-check (the engine publishes only for random sub-checks with `watch: true`):
+    /// a call into the library that never returns is then reported as a non-termination of THIS case
+    /// instead of as a dead worker.  The guard clears the publication also when the check unwinds.
+    pub struct Published;
+
+    pub fn publish<C: serde::Serialize>(case: &C) -> Published {
+        let js = serde_json::to_string(case).unwrap_or_else(|_| "null".to_string());
+        *WATCH.current.lock().unwrap() = Some((Instant::now(), js));
+        Published
+    }
+
+    impl Drop for Published {
+        fn drop(&mut self) {
+            if let Ok(mut c) = WATCH.current.lock() {
+                *c = None;
+            }
+        }
+    }
+
+    /// Temporary files of one case under `$VERIF_DIR/run/tmp-<property>/`; names carry the process id
+    /// (workers run in parallel) and a per-case slot name; everything is removed when the value is dropped.
+    pub struct TmpFiles {
+        dir: String,
+        made: Vec<String>,
+    }
+
+    impl TmpFiles {
+        pub fn new(property: &str) -> io::Result<TmpFiles> {
+            let dir = format!("{}/run/tmp-{}", known::verif_dir(), property);
+            std::fs::create_dir_all(&dir)?;
+            Ok(TmpFiles { dir, made: Vec::new() })
+        }
+        /// the path of slot `name` (stable within the case, so that histories can reuse one path)
+        pub fn path(&mut self, name: &str) -> String {
+            let p = format!("{}/p{}-{}", self.dir, std::process::id(), name);
+            if !self.made.contains(&p) {
+                self.made.push(p.clone());
+            }
+            p
+        }
+    }
+
+    impl Drop for TmpFiles {
+        fn drop(&mut self) {
+            for p in &self.made {
+                let _ = std::fs::remove_file(p);
+            }
+        }
+    }
+
+    /// `Read + Seek` over a file that exists only as a function `byte_at(offset)`: lets the indexed
+    /// reader work on files far larger than memory (record offsets / start positions beyond 2^32).
+    /// `chunk` bounds what one `read()` delivers.
+    pub struct VirtualFile<F: Fn(u64) -> u8> {
+        pub len: u64,
+        pub pos: u64,
+        pub chunk: usize,
+        pub byte_at: F,
+        pub reads: u64,
+        pub seeks: u64,
+    }
+
+    impl<F: Fn(u64) -> u8> VirtualFile<F> {
+        pub fn new(len: u64, chunk: usize, byte_at: F) -> Self {
+            VirtualFile { len, pos: 0, chunk: chunk.max(1), byte_at, reads: 0, seeks: 0 }
+        }
+    }
+
+    impl<F: Fn(u64) -> u8> Read for VirtualFile<F> {
+        fn read(&mut self, buf: &mut [u8]) -> io::Result<usize> {
+            let remaining = self.len.saturating_sub(self.pos);
+            let n = (buf.len() as u64).min(remaining).min(self.chunk as u64) as usize;
+            for (i, b) in buf[..n].iter_mut().enumerate() {
+                *b = (self.byte_at)(self.pos + i as u64);
+            }
+            self.pos += n as u64;
+            self.reads += 1;
+            Ok(n)
+        }
+    }
+
+    impl<F: Fn(u64) -> u8> Seek for VirtualFile<F> {
+        fn seek(&mut self, to: SeekFrom) -> io::Result<u64> {
+            let target: i128 = match to {
+                SeekFrom::Start(n) => n as i128,
+                SeekFrom::End(d) => self.len as i128 + d as i128,
+                SeekFrom::Current(d) => self.pos as i128 + d as i128,
+            };
+            if target < 0 || target > u64::MAX as i128 {
+                return Err(io::Error::new(io::ErrorKind::InvalidInput, "seek to a negative or overflowing position"));
+            }
+            self.pos = target as u64;
+            self.seeks += 1;
+            Ok(self.pos)
+        }
+    }
+
+    #[cfg(test)]
+    mod tests {
+        use super::*;
+
+        #[test]
+        fn bands() {
+            assert_eq!(band(255), "255..257");
+            assert_eq!(band(257), "255..257");
+            assert_eq!(band(258), "between 257 and 511");
+            assert_eq!(band(3), "between 0 and 255");
+            assert_eq!(band(70_001), "69999..70001");
+            assert_eq!(band((1 << 20) + 1), "1048575..1048577");
+            assert_eq!(band((1 << 20) + 2), "above 1048577");
+            assert_eq!(ladder(512), vec![255, 256, 257, 511, 512, 513]);
+        }
+    }
+}
+
